@@ -4,6 +4,7 @@ the virtual clock.  There is no U-Boot binary here; the real `UBootShell` talks 
 model talks to the Lean console, and `ubootimpl` has every line this tokenizer sees re-tokenised
 by `Hush.hushWords` through the driver — the two must agree."""
 import vclock
+import verbosity
 from mockio import Hang
 from tbot.machine.channel import channel as tch
 
@@ -253,7 +254,7 @@ class SimIO(tch.ChannelIO):
         if not seg:
             self.segs.pop(0)
         self.pieces.append(k)
-        return d
+        return verbosity.through_debug_log(self, d)
 
     def pending(self):
         return b"".join(bytes(x) for x in self.segs)
